@@ -121,11 +121,44 @@ def _input_error_sites(eng, solve, cfg):
     return out
 
 
+def _through_boolean_local(cfg, at, a, depth=2):
+    """`flag = A and B; if flag:` guards like `if A and B:`: a truth test of a local with one reaching definition that is a comparison / conjunction is replaced by the
+    atoms of that definition (a negated test only when the definition is a single comparison)."""
+    if depth <= 0 or a.op not in ("truth", "false") or not isinstance(a.lhs, ast.Name):
+        return [a]
+    try:
+        defs = cfg.defs_reaching(at, a.lhs.id)
+    except Exception:
+        return [a]
+    if len(defs) != 1:
+        return [a]
+    ds = cfg.ast_of(list(defs)[0])
+    if not (isinstance(ds, ast.Assign) and len(ds.targets) == 1 and isinstance(ds.targets[0], ast.Name)):
+        return [a]
+    v = ds.value
+    want = a.op == "truth"
+    if isinstance(v, ast.Compare) and len(v.ops) == 1:
+        return [atom_of(v, want)]
+    if isinstance(v, ast.BoolOp) and isinstance(v.op, ast.And) and want:
+        out = []
+        for c in v.values:
+            out += _through_boolean_local(cfg, ds, atom_of(c, True), depth - 1)
+        return out
+    if isinstance(v, ast.BoolOp) and isinstance(v.op, ast.Or) and not want:
+        out = []
+        for c in v.values:
+            out += _through_boolean_local(cfg, ds, atom_of(c, False), depth - 1)
+        return out
+    return [a]
+
+
 def _site_guard_sets(eng, cfg, s):
     """The guard atoms under which site s assigns an input error: one list per error outcome.  A validation helper contributes one list per error return,
     made of the guards at the call site plus the helper's own guards with its parameters replaced by the call's arguments."""
     import copy
-    outer = [a for (_b, a) in guards_of(cfg, s)]
+    outer = []
+    for (gn, a) in guards_of(cfg, s):
+        outer += _through_boolean_local(cfg, cfg.ast_of(gn), a)
     st = cfg.ast_of(s)
     vh = _validation_helper(eng, st.value) if isinstance(st, ast.Assign) else None
     if vh is None:
